@@ -7,8 +7,8 @@ import AgeModel.File
 namespace AgeModel
 open Format
 
-/-- two identities that answer alike on every stanza list -/
-def SameUnwrap (P : Prims) (i j : Identity) : Prop := ∀ ss, i.unwrap P ss = j.unwrap P ss
+/-- two identities that answer alike on every stanza list (and hand back an empty key the same way) -/
+def SameUnwrap (P : Prims) (i j : Identity) : Prop := (∀ ss, i.unwrap P ss = j.unwrap P ss) ∧ i.emptyNonNil = j.emptyNonNil
 
 /-- two identity lists that are position by position alike -/
 inductive SameIds (P : Prims) : List Identity → List Identity → Prop
@@ -22,7 +22,7 @@ theorem identityLoop_congr (P : Prims) (ss : List Stanza) : ∀ (ids ids' : List
   | nil => intro a c; rfl
   | cons hij _ ih =>
     intro a c
-    simp only [identityLoop, hij ss]
+    simp only [identityLoop, hij.1 ss]
     split
     · exact ih _ _
     · rfl
@@ -34,9 +34,21 @@ theorem countIncorrect_congr (P : Prims) (ss : List Stanza) : ∀ (ids ids' : Li
   induction h with
   | nil => rfl
   | cons hij _ ih =>
-    simp only [countIncorrect, hij ss]
+    simp only [countIncorrect, hij.1 ss]
     split
     · rw [ih]
+    · rfl
+
+theorem endsNonNil_congr (P : Prims) (ss : List Stanza) : ∀ (ids ids' : List Identity),
+    SameIds P ids ids' → endsNonNil P ss ids = endsNonNil P ss ids' := by
+  intro ids ids' h
+  induction h with
+  | nil => rfl
+  | cons hij _ ih =>
+    simp only [endsNonNil, hij.1 ss, hij.2]
+    split
+    · rw [ih]
+    · rfl
     · rfl
 
 theorem decryptInit_congr (P : Prims) (ids ids' : List Identity) (h : SameIds P ids ids') (file : Bytes) :
@@ -49,7 +61,8 @@ theorem decryptInit_congr (P : Prims) (ids ids' : List Identity) (h : SameIds P 
   · split
     · rfl
     · rename_i hdr payload _
-      rw [identityLoop_congr P hdr.stanzas ids ids' h, countIncorrect_congr P hdr.stanzas ids ids' h]
+      rw [identityLoop_congr P hdr.stanzas ids ids' h, countIncorrect_congr P hdr.stanzas ids ids' h,
+        endsNonNil_congr P hdr.stanzas ids ids' h]
 
 theorem unwrapScrypt_congr (P : Prims) (pw pw' : Bytes) (m : Nat)
     (hP : ∀ salt n, P.scrypt pw' salt n = P.scrypt pw salt n) (s : Stanza) :
@@ -60,6 +73,7 @@ theorem unwrapScrypt_congr (P : Prims) (pw pw' : Bytes) (m : Nat)
 theorem scryptIdentity_same (P : Prims) (pw pw' : Bytes) (m : Nat)
     (hP : ∀ salt n, P.scrypt pw' salt n = P.scrypt pw salt n) :
     SameUnwrap P (.scrypt pw' m) (.scrypt pw m) := by
+  refine ⟨?_, rfl⟩
   intro ss
   unfold Identity.unwrap Identity.unwrapLog
   have : unwrapScrypt P pw' m = unwrapScrypt P pw m := funext (unwrapScrypt_congr P pw pw' m hP)
